@@ -119,6 +119,11 @@ def get_mod_apply_selection_choice(
         removed_nodes |= e.removed_nodes
         added_edges |= e.edges
 
+        # The violated edges may end at nodes that are removed or lose their derivation: also mark infeasibility
+        # between two nodes that are certainly confirmed (as done above for choices without options)
+        added_edges.add(get_edge_for_type(
+            list(start_nodes)[0], target_option_node, EdgeType.INCOMPATIBILITY, choice_node=choice_node))
+
     return removed_edges, removed_nodes, added_edges
 
 
